@@ -141,3 +141,22 @@ pub fn c04_arc_forward_body(v: u64, vbits: u64, op: u8) {
 fn c04_arc_forward() {
     c04_arc_forward_body(kani::any(), kani::any(), kani::any());
 }
+
+// From<Arc<T>> conversions build live handles on the SAME storage
+pub fn c04_from_arc_body(v: u64) {
+    let log = Arc::new(Log::new());
+    let c: Counter = Counter::from(log.clone());
+    let g: Gauge = Gauge::from(log.clone());
+    let h: Histogram = Histogram::from(log.clone());
+    c.increment(v);
+    assert!(log.calls.load(O::SeqCst) == 1 && log.last_op.load(O::SeqCst) == 1 && log.last_u.load(O::SeqCst) == v);
+    g.set(f64::from_bits(v));
+    assert!(log.calls.load(O::SeqCst) == 2 && log.last_op.load(O::SeqCst) == 5 && log.last_u.load(O::SeqCst) == v);
+    h.record(f64::from_bits(v));
+    assert!(log.calls.load(O::SeqCst) == 3 && log.last_op.load(O::SeqCst) == 6);
+}
+#[cfg(kani)]
+#[kani::proof]
+fn c04_from_arc() {
+    c04_from_arc_body(kani::any());
+}
